@@ -346,6 +346,21 @@ func (s *Scanner) Scan(src interface{}) error {
 		}
 		s.value.Set(reflect.ValueOf(str.String).Convert(s.Type))
 		return nil
+	case reflect.Slice:
+		// A named type over []byte (type Blob []byte) is written as its bytes
+		// and read back from them.
+		if s.Type.Elem().Kind() == reflect.Uint8 {
+			switch b := src.(type) {
+			case string:
+				s.value.Set(reflect.ValueOf([]byte(b)).Convert(s.Type))
+				return nil
+			case []byte:
+				bCopy := make([]byte, len(b))
+				copy(bCopy, b)
+				s.value.Set(reflect.ValueOf(bCopy).Convert(s.Type))
+				return nil
+			}
+		}
 	}
 
 	return fmt.Errorf("couldn't coerce type %T into %T", src, i)
